@@ -191,6 +191,8 @@ func init() {
 			Run: func(P *Program, R *Report) { mapOrderVerdictRule(P, R) }},
 		Rule{ID: "C11.k", Explain: "the commitments C_r and C_u of a non-revocation proof are bases of the verified relations: VerifyWithChallenge accepts only if both are elements of the group - 0 < C < N (with C_r = C_u = 0 all reconstructed commitments are zero whatever the responses, so that a proof made without a witness verifies).",
 			Run: func(P *Program, R *Report) { revocationGroupElementsRule(P, R, "C11.k") }},
+		Rule{ID: "C11.l", Explain: "the by-name lookups through which the proof machinery reads the secrets, randomisers, responses and bases of the non-revocation proof (proofCommit.Secret/Randomizer/Base, proof.ProofResult, witness.Secret/Randomizer, accumulator.Base) answer each name with that name's own value: every return is the map lookup under the requested name, or - under a test name == k - the value tabled for k; every tabled name is answered; anything else returns nil. (A lookup that answers \"delta\" with beta's randomiser is used consistently by prover commitment and response, so every proof still verifies, while two responses share one randomiser.)",
+			Run: func(P *Program, R *Report) { lookupFaithfulRule(P, R, "C11.l", revocationLookups) }},
 	)
 }
 
@@ -630,5 +632,89 @@ func revocationGroupElementsRule(P *Program, R *Report, rule string) {
 			}
 			R.decide(rule, key+":"+f+":"+side.name, "accept => "+side.what+" (the commitment is a group element)", ok.Holds, detail, P.Pos(fn.Pos()))
 		}
+	}
+}
+
+// lookupRow: what a by-name lookup returns. generic: the descriptor returned for an arbitrary name ("" = none);
+// byKey: the descriptor returned for a particular name; keys: the names that must be answered.
+type lookupRow struct {
+	fn      string
+	generic string
+	byKey   map[string]string
+	keys    []string
+}
+
+var revocationSecretNames = []string{"alpha", "beta", "delta", "epsilon", "zeta"}
+
+var revocationLookups = []lookupRow{
+	{fn: "revocation.(*proofCommit).Secret", generic: "<revocation.ProofCommit>.secrets[arg#1]", keys: revocationSecretNames},
+	{fn: "revocation.(*proofCommit).Randomizer", generic: "<revocation.ProofCommit>.randomizers[arg#1]", keys: revocationSecretNames},
+	{fn: "revocation.(*proof).ProofResult", generic: "<revocation.Proof>.Responses[arg#1]", keys: revocationSecretNames},
+	{fn: "revocation.(*proofCommit).Base", byKey: map[string]string{"cu": "<revocation.ProofCommit>.cu", "cr": "<revocation.ProofCommit>.cr", "nu": "<revocation.ProofCommit>.nu", "one": "call:big.NewInt(1)"}, keys: []string{"cu", "cr", "nu", "one"}},
+	{fn: "revocation.(*witness).Secret", byKey: map[string]string{"alpha": "<revocation.Witness>.E", "u": "<revocation.Witness>.U"}, keys: []string{"alpha", "u"}},
+	{fn: "revocation.(*witness).Randomizer", byKey: map[string]string{"alpha": "<revocation.Witness>.randomizer"}, keys: []string{"alpha"}},
+	{fn: "revocation.(accumulator).Base", byKey: map[string]string{"nu": "<revocation.Accumulator>.Nu"}, keys: []string{"nu"}},
+}
+
+// lookupFaithfulRule: the by-name lookups through which zkproof reads secrets, randomisers, responses and bases answer
+// each name with that name's own value: every return is the generic lookup under the requested name, or - under a
+// test `name == "k"` - the value tabled for k; every tabled name is answered; anything else returns nil.
+func lookupFaithfulRule(P *Program, R *Report, rule string, rows []lookupRow) {
+	for _, row := range rows {
+		fn := mustFunc(P, R, rule, row.fn)
+		if fn == nil {
+			continue
+		}
+		answered := map[string]bool{}
+		genericSeen := false
+		ok := true
+		var notes []string
+		for _, r := range returnsOf(fn) {
+			v := retValue(r, 0)
+			d := desc(v)
+			if isNilConst(v) {
+				d = "nil"
+			}
+			k := "*"
+			for _, a := range controllingConds(r.Block()) {
+				t, want := condText(a)
+				if want == True && strings.HasPrefix(t, "(arg#1==\"") && strings.HasSuffix(t, "\")") {
+					k = strings.TrimSuffix(strings.TrimPrefix(t, "(arg#1==\""), "\")")
+				}
+			}
+			if k == "*" {
+				if row.generic != "" && d == row.generic {
+					genericSeen = true
+					continue
+				}
+				if d != "nil" {
+					ok = false
+					notes = append(notes, "any name -> "+d)
+				}
+				continue
+			}
+			want, has := row.byKey[k]
+			if !has && row.generic != "" {
+				want, has = strings.ReplaceAll(row.generic, "arg#1", "\""+k+"\""), true
+			}
+			if !has {
+				want = "nil"
+			}
+			if d != want {
+				ok = false
+				notes = append(notes, fmt.Sprintf("%q -> %s (want %s)", k, d, want))
+			} else {
+				answered[k] = true
+			}
+		}
+		if !genericSeen {
+			for _, k := range row.keys {
+				if !answered[k] {
+					ok = false
+					notes = append(notes, fmt.Sprintf("%q is not answered", k))
+				}
+			}
+		}
+		R.decide(rule, row.fn+":lookup", "the by-name lookup answers every name with that name's own value", ok, strings.Join(notes, "; "), P.Pos(fn.Pos()))
 	}
 }
